@@ -371,112 +371,101 @@ func ruleDedup(w *World, r *Report) {
 // ---------- C03-MERGE ----------
 
 func ruleMerge(w *World, r *Report) {
-	r.rule("C03-MERGE", "the builder's rewrite that detaches a positional step from its parent path (so that positions restart per parent) treats all step types alike: its type switch has a case for every step type the axis dispatch can build and for the parenthesised-path type, and every case performs the same rewire (remember X.Input as the parent unless it already is the context query, then make X.Input the fresh context query)")
-	variants := w.axisVariants(nil)
-	need := map[string]bool{}
-	for _, set := range variants {
-		for tn := range set {
-			need[tn] = true
+	r.rule("C03-MERGE", "the builder's rewrite that detaches a positional step from its parent path (so that positions restart per parent) treats all step types alike. The predicate builder is followed by constant propagation (builder_absint.go) for a positional predicate on a step of every type the axis dispatch can build, the step's input being some non-context path: the result must be the two-part query (former input of the step; filter over the step) and the step must now start from a fresh context query. For the parenthesised-path type the same run must leave the path untouched ((path)[n] counts over the whole sequence): the rewrite is guarded by the merge property, which that type does not report")
+	tab, _, err := w.axisTable()
+	if err != nil {
+		r.bad("ANCHOR", "C03-MERGE", "", "axis dispatch not found: "+err.Error())
+		return
+	}
+	seen := map[*QType]bool{}
+	var steps []*QType
+	for _, e := range tab {
+		if !seen[e.Type] {
+			seen[e.Type] = true
+			steps = append(steps, e.Type)
 		}
 	}
-	// the type switch with the most pointer-to-query-type cases in build-time code
-	var best *ast.TypeSwitchStmt
-	var bestFn *ast.FuncDecl
-	bestN := 0
-	for _, f := range w.Pkg.Syntax {
-		for _, d := range f.Decls {
-			fd, ok := d.(*ast.FuncDecl)
-			if !ok || fd.Body == nil {
-				continue
-			}
-			ast.Inspect(fd.Body, func(x ast.Node) bool {
-				ts, ok := x.(*ast.TypeSwitchStmt)
-				if !ok {
-					return true
-				}
-				n := 0
-				for _, s := range ts.Body.List {
-					for _, e := range s.(*ast.CaseClause).List {
-						if tv, ok := w.Info.Types[e]; ok {
-							if pt, ok := tv.Type.(*types.Pointer); ok {
-								if nm, ok := pt.Elem().(*types.Named); ok && w.census.ByType[nm] != nil {
-									n++
-								}
+	// the parenthesised-path type: the query type the node dispatcher itself allocates
+	var group *QType
+	br, _ := w.roles()
+	if br != nil {
+		eachInstr(br.Dispatch, false, func(_ *ssa.Function, in ssa.Instruction) {
+			if a, ok := in.(*ssa.Alloc); ok {
+				if n, ok := a.Type().(*types.Pointer).Elem().(*types.Named); ok {
+					if qt := w.census.ByType[n]; qt != nil && !seen[qt] {
+						nq := 0
+						for _, f := range qt.Fields {
+							if f.IsQuery {
+								nq++
 							}
+						}
+						if nq == 1 {
+							group = qt
 						}
 					}
 				}
-				if n > bestN {
-					best, bestFn, bestN = ts, fd, n
-				}
-				return true
-			})
-		}
+			}
+		})
 	}
-	if best == nil || bestN < 5 {
-		r.bad("ANCHOR", "C03-MERGE", "", "step-type switch of the predicate builder not found")
+	all := append([]*QType{}, steps...)
+	if group != nil {
+		all = append(all, group)
+	}
+	fbs, br2, err := w.filterBuilds(all)
+	if err != nil {
+		r.bad("ANCHOR", "C03-MERGE", "", err.Error())
 		return
 	}
-	_ = bestFn
-	got := map[string]string{}
-	for _, s := range best.Body.List {
-		cc := s.(*ast.CaseClause)
-		body := normaliseBody(w, cc)
-		for _, e := range cc.List {
-			if tv, ok := w.Info.Types[e]; ok {
-				if pt, ok := tv.Type.(*types.Pointer); ok {
-					if nm, ok := pt.Elem().(*types.Named); ok {
-						got[nm.Obj().Name()] = body
-					}
-				}
-			}
+	r.FuncsAnalysed[fnName(br2.FilterB)] = true
+	pos := w.pos(br2.FilterB.Pos())
+	var missing, odd []string
+	nstep := 0
+	var groupFB *filterBuild
+	for i := range fbs {
+		fb := &fbs[i]
+		if fb.Step == group {
+			groupFB = fb
+			continue
 		}
-	}
-	pos := w.pos(best.Pos())
-	var missing []string
-	for tn := range need {
-		if _, ok := got[tn]; !ok {
-			missing = append(missing, tn)
+		nstep++
+		switch {
+		case fb.Rewritten && !fb.Plain && fb.Why == "":
+		case fb.Plain && !fb.Rewritten:
+			missing = append(missing, fb.Step.Name())
+		default:
+			odd = append(odd, fb.Step.Name()+" ("+fb.Why+")")
 		}
 	}
 	sort.Strings(missing)
-	if len(missing) == 0 {
-		r.ok("C03-MERGE", "cases", pos, fmt.Sprintf("%d step types handled, including every type the axis dispatch builds", len(got)))
+	sort.Strings(odd)
+	if nstep < 8 {
+		r.bad("C03-MERGE", "cases", pos, fmt.Sprintf("only %d step types could be followed through the predicate builder", nstep))
+	} else if len(missing) == 0 {
+		r.ok("C03-MERGE", "cases", pos, fmt.Sprintf("%d step types handled, including every type the axis dispatch builds", nstep))
 	} else {
-		r.bad("C03-MERGE", "cases", pos, fmt.Sprintf("the positional rewrite has no case for %v: for steps of that type positions run on across parents instead of restarting", missing))
+		r.bad("C03-MERGE", "cases", pos, fmt.Sprintf("the positional rewrite does not detach steps of type %v: for steps of that type positions run on across parents instead of restarting", missing))
 	}
-	w.checkMergeGuard(r, bestFn)
-	// all bodies identical (modulo the bound variable)
-	count := map[string][]string{}
-	for tn, b := range got {
-		count[b] = append(count[b], tn)
+	if len(odd) == 0 {
+		r.ok("C03-MERGE", "agreement", pos, "all step types are rewired the same way: parent = step.Input, step.Input = fresh context query, result = merge(parent, filter(step))")
+	} else {
+		r.bad("C03-MERGE", "agreement", pos, fmt.Sprintf("sibling step types are rewired differently: %v", odd))
 	}
-	if len(count) == 1 {
-		// the common body must contain: not-context test, parent = X.Input, X.Input = <context query var>
-		var body string
-		for b := range count {
-			body = b
-		}
-		if strings.Contains(body, "ASSERT(") && strings.Contains(body, "-NOT") && strings.Contains(body, "ASSIGN[var:query,<-X.Input,]") && strings.Contains(body, "ASSIGN[X.Input,<-var:") {
-			r.ok("C03-MERGE", "agreement", pos, "all cases perform the same rewire")
+	switch {
+	case groupFB == nil:
+		r.bad("C03-MERGE", "guard", pos, "the parenthesised-path query type was not found")
+	case groupFB.Plain && !groupFB.Rewritten:
+		r.ok("C03-MERGE", "guard", pos, "a positional predicate on a parenthesised path ("+group.Name()+") is built as a plain filter over the whole path")
+	default:
+		r.bad("C03-MERGE", "guard", pos, "a positional predicate on a parenthesised path is rewritten per parent too: (path)[n] no longer counts over the whole sequence (the rewrite must be guarded by the merge property, which "+group.Name()+" must not report) "+groupFB.Why)
+	}
+	// the property the guard reads, evaluated on a parenthesised path whose own
+	// steps do report it
+	if groupFB != nil && group != nil {
+		if groupFB.Plain && !groupFB.Rewritten {
+			r.ok("C03-MERGE", "group-props", pos, group.Name()+" over a path of mergeable steps does not itself report the merge property")
 		} else {
-			r.bad("C03-MERGE", "agreement", pos, "the common case body is not `if X.Input is not the context query { parent = X.Input; X.Input = context }`: "+body)
+			r.bad("C03-MERGE", "group-props", pos, group.Name()+" reports the merge property (its own or its input's): (path)[n] would be rewritten into a per-parent filter")
 		}
-	} else {
-		var odd []string
-		max := 0
-		for _, ts := range count {
-			if len(ts) > max {
-				max = len(ts)
-			}
-		}
-		for _, ts := range count {
-			if len(ts) < max {
-				odd = append(odd, ts...)
-			}
-		}
-		sort.Strings(odd)
-		r.bad("C03-MERGE", "agreement", pos, fmt.Sprintf("the cases for %v differ from the others: sibling step types are rewired differently", odd))
 	}
 }
 
